@@ -305,8 +305,14 @@ func (f *ObjectLayoutFixer) fixLayout(mapping LayoutMapping, value octosql.Value
 		}
 		return octosql.NewList(out)
 	case octosql.TypeIDTuple:
-		out := make([]octosql.Value, len(value.Tuple))
-		for i := range out {
+		// The target tuple type may be longer than this value: TypeSum pads the shorter
+		// tuple type with NULL elements, so the value is padded with NULLs the same way.
+		length := len(value.Tuple)
+		if mapping.Tuple != nil && len(mapping.Tuple.ElementMapping) > length {
+			length = len(mapping.Tuple.ElementMapping)
+		}
+		out := make([]octosql.Value, length)
+		for i := range value.Tuple {
 			out[i] = f.fixLayout(mapping.Tuple.ElementMapping[i], value.Tuple[i])
 		}
 		return octosql.NewTuple(out)
@@ -400,6 +406,9 @@ func calculateMapping(targetType, sourceType octosql.Type) LayoutMapping {
 	case octosql.TypeIDTuple:
 		mappings := make([]LayoutMapping, len(targetType.Tuple.Elements))
 		for i := range mappings {
+			if i >= len(sourceType.Tuple.Elements) {
+				break // elements the source tuple doesn't have stay NULL
+			}
 			mappings[i] = calculateMapping(targetType.Tuple.Elements[i], sourceType.Tuple.Elements[i])
 		}
 		return LayoutMapping{
